@@ -48,7 +48,14 @@ async def first(
                 volatile=True,
             )
         async for winner in a.islice(results, count):
-            yield winner
+            # While the consumer handles a result, it runs code outside of our scope.
+            # A failing activity must not interrupt *that* with our internal signal;
+            # the failure is acted upon once the consumer asks for the next result.
+            scope._suspend_interrupts()
+            try:
+                yield winner
+            finally:
+                scope._resume_interrupts()
 
 
 async def collect(*activities: Coroutine[Any, Any, RT]) -> List[RT]:
